@@ -283,12 +283,13 @@ def _tlc_parallel(ck: Check, jobs):
 
 def run(ck: Check):
     thorough = ck.tier == "thorough"
-    ck.rule = ("verbose Einsum records are enumerated (small alphabet: 1-2 inputs, 0-2 ranks, every choice of one long-form "
-               "entry, every applicable corruption, every placement of <= 2 blanks) or drawn (1-4 inputs, 0-4 ranks, 7 expression "
+    ck.rule = ("verbose Einsum records are enumerated (small alphabet of %s entries: 1-2 inputs, 0-%s ranks, every choice of one "
+               "long-form entry, every applicable corruption, every placement of <= %s blanks) or drawn (1-4 inputs, 0-4 ranks, 7 expression "
                "shapes, random long forms, white space ' ', '  ', tab chosen by the simulator at every gap) by TLC from "
                "spec/MC_EinsumSyntax.tla; expected = Parse(tokens) of spec/EinsumSyntax.tla (the documented grammar): the verbose "
                "record, or error for the 23 corruption kinds. Non-trivial = a well-formed string with white space and at least one "
-               "'Rank: expression' entry, or a corrupted string; distinct by the string.")
+               "'Rank: expression' entry, or a corrupted string; distinct by the string."
+               % (("5", "2", "2") if thorough else ("3", "1", "1")))
     ck.trusted += ["spelling of the extra-attribute bundles chosen by TLC (checks/c23.py EINSUM_X / ACCESS_X)",
                    "removal of white space from the implementation's expression strings before comparison"]
     ck.assumptions += ["a tensor without ranks (`T[]`) is inside the quantifier (0-4 ranks) but the repository treats the empty "
@@ -300,7 +301,7 @@ def run(ck: Check):
         jobs.append(dict(module="MC_EinsumSyntax", cfg="MC_EinsumSyntax_exh_q2.cfg", workers=2, timeout=1100, coverage=False))
     else:
         jobs.append(dict(module="MC_EinsumSyntax", cfg="MC_EinsumSyntax_exh_q1.cfg", workers=4, timeout=900, coverage=False))
-    nsim = 4 if thorough else 2
+    nsim = 4 if thorough else 1
     for i in range(nsim):
         jobs.append(dict(module="MC_EinsumSyntax", cfg="MC_EinsumSyntax_rand_%s.cfg" % ("t" if thorough else "q"),
                          simulate="num=1", depth=2000000, seed=ck.seed * 1000 + i + 1, workers=1, timeout=1100, coverage=False))
@@ -331,7 +332,7 @@ def run(ck: Check):
                           "agree, the notation is unambiguous), MalformedIsMalformed (each of the 23 corruptions leaves the "
                           "grammar wherever it is applicable) and TypeOK of the emitter")
     recs = [r for _, r in labelled]
-    ncpu = 6
+    ncpu = 6 if thorough else 4
     size = max(200, min(4000, len(recs) // (ncpu * 4) + 1))
     chunks = [recs[i:i + size] for i in range(0, len(recs), size)]
     with ProcessPoolExecutor(ncpu) as ex:
@@ -357,7 +358,9 @@ def run(ck: Check):
             ck.count_nontrivial(r["s"])
     ck.extra["corruption_kinds_replayed"] = kinds
     ck.extra["scalar_tensor_records"] = notes
-    if len(kinds) < 23:
+    # (the quick exhaustive family has no projection with two entries, so DoubleComma can only
+    # come from the random part there)
+    if len(kinds) < (23 if thorough else 21):
         raise Machinery("vacuity: only %d of 23 corruption kinds were generated: %s" % (len(kinds), sorted(kinds)))
     oks = [i for i, r in enumerate(recs) if r["expect"] == "ok" and r["nws"] > 0 and not r["scalar"]]
     bads = [i for i, r in enumerate(recs) if r["expect"] == "error"]
